@@ -416,3 +416,29 @@ pub fn cand_received(rec: &RunRecord) -> BTreeSet<u32> {
     }
     out
 }
+
+/// "Prompt": the poll that answers `Some` is made from inside a poll of the solve future, and the error travels up
+/// through `?` in that same poll - so between the first fired poll of a solve and the end of that solve the root
+/// future is never left pending (no quiescent point). A solver that keeps waiting for requests that are in flight
+/// (which may never answer - that is when users cancel) shows one. Returns (solve index, poll index).
+pub fn waits_after_cancel(rec: &RunRecord) -> Option<(usize, u64)> {
+    let mut cur = 0usize;
+    let mut fired: Option<u64> = None;
+    for e in &rec.log {
+        match e {
+            Ev::SolveBegin(i) => {
+                cur = *i;
+                fired = None;
+            }
+            Ev::SolveEnd(_) => fired = None,
+            Ev::CancelPoll { n, fired: true } if fired.is_none() => fired = Some(*n),
+            Ev::Quiescent { .. } => {
+                if let Some(n) = fired {
+                    return Some((cur, n));
+                }
+            }
+            _ => {}
+        }
+    }
+    None
+}
